@@ -230,7 +230,13 @@ func (g *FnGen) execDefer(s *State, x *ssa.Defer) {
 		panic(genErr("%s: defer of %s which has no contract", g.fn.Name(), ct.key))
 	}
 	if len(g.enclosingLoops()) > 0 {
-		panic(genErr("%s: defer inside a loop is not supported", g.fn.Name()))
+		// a defer registered inside a loop runs at function exit; its effect is outside the model
+		// (dropped and listed) unless the callee modifies modelled state
+		if len(fc.Modifies) > 0 {
+			panic(genErr("%s: defer of a state-changing call inside a loop is not supported", g.fn.Name()))
+		}
+		g.usedDropped["defer inside loop: "+ct.key+" (runs at exit; not modelled)"] = true
+		return
 	}
 	var args []TVal
 	if com.IsInvoke() {
